@@ -1,6 +1,6 @@
 (* C14 — the oracle: Prop reading (Spec), soundness, and the model satisfies it on every case *)
 From Coq Require Import List ZArith Lia Bool.
-From RD Require Import C15.Prim C15.PL C15.Qos C15.Disc C14.Wire C14.Model C14.NumSetProofs C14.Proofs.
+From RD Require Import C15.Prim C15.PL C15.Qos C15.Disc C14.Wire C14.Model C14.NumSetProofs C14.Proofs C14.NumRawProofs.
 Import ListNotations.
 Open Scope Z_scope.
 
@@ -34,6 +34,32 @@ Proof.
     + split; [discriminate|]. intros (n & rest & E & _). discriminate.
 Qed.
 
+(* a consumer of the iterator over the member list M that should see [P]: it collects a list with P
+   (and then no member lies above the maximum of the number type), or it panicked and a member does *)
+Definition Collected (k : nkind) (M : list Z) (P : list Z -> Prop) (r : ires) : Prop :=
+  match r with
+  | IOk l => P l /\ forall m, In m M -> m <= n_hi k
+  | IPanic => exists m, In m M /\ n_hi k < m
+  | IFuel => False
+  end.
+
+(* what the accessors of a set with the parts s must report: `members s` is the ascending list of
+   the base + i with i < numBits and bit i set (members_In, members_sorted) *)
+Definition RawAccessors (k : nkind) (s : numset) (r : rawres) : Prop :=
+  rr_base r = ns_base s /\
+  Collected k (members s) (fun l => l = members s) (rr_fwd r) /\
+  Collected k (members s) (fun l => l = rev (members s)) (rr_bwd r) /\
+  Collected k (members s) (fun l => fronts true l ++ rev (fronts false l) = members s) (rr_alt r) /\
+  match rr_empty r with
+  | Some b => (b = true <-> members s = []) /\ forall m, In m (firstn 1 (members s)) -> m <= n_hi k
+  | None => exists m, In m (firstn 1 (members s)) /\ n_hi k < m
+  end.
+
+Definition RawParts (base bits : Z) (words extra : list Z) (s : numset) (nrest : Z) : Prop :=
+  ns_base s = base /\ ns_bits s = bits /\
+  (let n := Z.to_nat (Z.min (wcount bits) (len words)) in firstn n (ns_words s) = firstn n words) /\
+  (wcount bits <= len words -> nrest = len extra).
+
 (* what the property demands of one observation *)
 Definition Spec (c : case) (o : obs) : Prop :=
   match c, o with
@@ -49,6 +75,12 @@ Definition Spec (c : case) (o : obs) : Prop :=
       forall x, In x it <-> In x set /\ adj_base base set <= x < adj_base base set + 256
   | CNumSet k base set, ObsPanic =>
       set <> [] /\ ~ (1 <= adj_base base set /\ adj_base base set + 256 <= n_hi k)
+  | CNumRaw k e base bits words extra, ObsNumRaw _ None =>
+      ~ (raw_inrange k base bits words extra /\ bits <= 256 /\ wcount bits <= len words)
+  | CNumRaw k e base bits words extra, ObsNumRaw _ (Some r) =>
+      ns_accepted (rr_set r) /\
+      (raw_inrange k base bits words extra -> RawParts base bits words extra (rr_set r) (rr_rest r)) /\
+      RawAccessors k (rr_set r) r
   | _, _ => False
   end.
 
@@ -72,9 +104,57 @@ Proof.
   rewrite in_app_iff in n. tauto.
 Qed.
 
+Lemma not_over_forall k M : existsb (over k) M = false <-> forall m, In m M -> m <= n_hi k.
+Proof.
+  rewrite <- not_true_iff_false, over_exists. split.
+  - intros H m Hm. destruct (Z.le_gt_cases m (n_hi k)); [assumption|]. exfalso. apply H. exists m. split; [assumption|lia].
+  - intros H (m & Hm & L). specialize (H m Hm). lia.
+Qed.
+
+Lemma collect_okb_spec k M want P r :
+  (forall l, want l = true <-> P l) -> (collect_okb k M want r = true <-> Collected k M P r).
+Proof.
+  intros W. destruct r as [l| |]; cbn [collect_okb Collected].
+  - rewrite andb_true_iff, negb_true_iff, W, not_over_forall. tauto.
+  - apply over_exists.
+  - split; [discriminate|contradiction].
+Qed.
+
+Lemma is_nil_iff {A} (l : list A) : is_nil l = true <-> l = [].
+Proof. destruct l; cbn; split; auto; discriminate. Qed.
+
+Lemma raw_accessors_okb_spec k s r : raw_accessors_okb k s r = true <-> RawAccessors k s r.
+Proof.
+  unfold raw_accessors_okb, RawAccessors. rewrite !andb_true_iff, Z.eqb_eq.
+  rewrite (collect_okb_spec k _ _ (fun l => l = members s)) by (intros; apply zlist_eqb_eq).
+  rewrite (collect_okb_spec k _ _ (fun l => l = rev (members s))) by (intros; apply zlist_eqb_eq).
+  rewrite (collect_okb_spec k _ _ (fun l => fronts true l ++ rev (fronts false l) = members s))
+    by (intros; apply zlist_eqb_eq).
+  assert (E : (match rr_empty r with
+               | Some b => Bool.eqb b (is_nil (members s)) && negb (existsb (over k) (firstn 1 (members s)))
+               | None => existsb (over k) (firstn 1 (members s))
+               end = true) <->
+              match rr_empty r with
+              | Some b => (b = true <-> members s = []) /\ forall m, In m (firstn 1 (members s)) -> m <= n_hi k
+              | None => exists m, In m (firstn 1 (members s)) /\ n_hi k < m
+              end).
+  { destruct (rr_empty r) as [b|]; [|apply over_exists].
+    rewrite andb_true_iff, negb_true_iff, not_over_forall, Bool.eqb_true_iff, <- is_nil_iff.
+    destruct b, (is_nil (members s)); intuition congruence. }
+  rewrite E. tauto.
+Qed.
+
+Lemma raw_parts_okb_spec base bits words extra s nrest :
+  raw_parts_okb base bits words extra s nrest = true <-> RawParts base bits words extra s nrest.
+Proof.
+  unfold raw_parts_okb, RawParts. cbv zeta. rewrite !andb_true_iff, !Z.eqb_eq, zlist_eqb_eq.
+  destruct (Z.leb_spec (wcount bits) (len words)) as [W|W]; rewrite ?Z.eqb_eq; intuition lia.
+Qed.
+
 Theorem oracle_sound c o : ok c o = true <-> Spec c o.
 Proof.
-  destruct c as [ctx h ops|bs|k base set]; destruct o as [m bytes cs p rs|p rs|s it le be rr|];
+  destruct c as [ctx h ops|bs|k base set|k e base bits words extra];
+    destruct o as [m bytes cs p rs|p rs|s it le be rr|bytes [r|]|];
     cbn [ok Spec]; try (split; [discriminate|contradiction]).
   - destruct (demandedb ops m).
     + rewrite !andb_true_iff, !dec2b_iff, frames_ok_spec. split.
@@ -98,6 +178,13 @@ Proof.
     rewrite negb_true_iff, <- not_true_iff_false, precond_spec. split.
     + intros H. split; [discriminate|exact H].
     + intros [_ H]. exact H.
+  - rewrite !andb_true_iff, raw_shapeb_spec, raw_accessors_okb_spec.
+    destruct (raw_inrangeb k base bits words extra) eqn:R.
+    + apply raw_inrangeb_spec in R. rewrite raw_parts_okb_spec. tauto.
+    + assert (N : ~ raw_inrange k base bits words extra).
+      { intros X. apply raw_inrangeb_spec in X. congruence. }
+      tauto.
+  - rewrite negb_true_iff, <- not_true_iff_false, !andb_true_iff, raw_inrangeb_spec, !Z.leb_le. tauto.
 Qed.
 
 (* ------------------------------------------------------------------------------------------ *)
@@ -166,7 +253,8 @@ Qed.
 
 Theorem model_ok c : ok c (run c) = true.
 Proof.
-  apply oracle_sound. destruct c as [ctx h ops|bs|k base set]; cbn [run].
+  destruct c as [ctx h ops|bs|k base set|k e base bits words extra]; [| | |apply raw_model_ok];
+    apply oracle_sound; cbn [run].
   - destruct (build ops) as [subs|] eqn:B; [|exact B].
     cbn [Spec]. intros Hd. pose proof (demanded_model ops subs h B Hd) as Hb. rewrite (roundtrip ctx _ Hb).
     split; [apply dec2b_iff; reflexivity|]. split; [reflexivity|].
